@@ -238,7 +238,7 @@ func ZZ_C18_Generated(sv *zzsv.T) {
 		src = p.text()
 		vars, order = g.vars, g.order
 	} else {
-		k := sv.Choice("scenario", 26)
+		k := sv.Choice("scenario", 28)
 		clash := []string{"a", "b"}[sv.Choice("clash", 2)]
 		src = zzScopeProgram(sv, k, clash, xVar("arr")).text()
 	}
